@@ -12,1183 +12,1139 @@ Definition show_fres (r : fres) : string :=
   end.
 Definition check (rs : list rune) : string := digest (show_fres (format_res rs)).
 Definition full (rs : list rune) : string := show_fres (format_res rs).
-Eval vm_compute in ("<<<M1357>>>" ++ check (runes_of_ascii "// top
-options
-    // c0
-{ StringPrefixLenType = // c3a
-  // c3b
-u16 ; ArrayPrefixLenType // c6a
-  // c6b
-= // c7a
-  // c7b
-u32 // c8
-; // c9
-FixedStringPadFromLeft // c10
-=
-    // c11
-true
-    // c12
-; // c13a
-  // c13b
-FixedStringPadChar // c14
-= // c15a
-  // c15b
-'0'
-    // c16
-; // c17a
-  // c17b
+Eval vm_compute in ("<<<M1572>>>" ++ check (runes_of_ascii "root packet repeatCount {
+    @tag(65535)
+    A {
+        u128,
+        u8x {
+            repeatCount @lengthOf(As),
+            i32 _x @calculatedFrom(""" ++ [128512]%N ++ runes_of_ascii """),
+        },
+        /// triple
+    },
 }
-    // c18
-packet Cancel // c20a
-  // c20b
-{ // c21
-} // c22a
-  // c22b
-packet Party // c24a
-  // c24b
-{ // c25
-} // c26
-packet // c27a
-  // c27b
-Logon
-    // c28
-{ // c29
-} packet // c31
-Ack // c32
-{ // c33
-} packet
-    // c35
-Logout { // c37a
-  // c37b
-repeat // c38
-InSym87 // c39a
-  // c39b
-{
-    // c40
-InClordid94 // c41a
-  // c41b
-{ // c42a
-  // c42b
-string // c43
-clOrdID // c44
-, // c45
-} // c46a
-  // c46b
-,
-    // c47
-string
-    // c48
-Px // c49a
-  // c49b
-,
-    // c50
-i16 // c51
-Qty // c52a
-  // c52b
-,
-    // c53
-repeat
-    // c54
-InCount71 // c55a
-  // c55b
-{ // c56
-repeat
-    // c57
-Cancel // c58a
-  // c58b
-, // c59a
-  // c59b
-uint16 // c60a
-  // c60b
-Tail , // c62
-char[
-    // c63
-2 // c64a
-  // c64b
-] // c65a
-  // c65b
-x
-    // c66
-, // c67a
-  // c67b
-repeat // c68a
-  // c68b
-string Ref
-    // c70
-,
-    // c71
-} // c72
-, // c73
-Cancel , } // c76
-, // c77a
-  // c77b
-} // c78a
-  // c78b
-root // c79
-packet // c80
-Order
-    // c81
-{ // c82
-repeat
-    // c83
-string tag7
-    // c85
-, // c86a
-  // c86b
-@leftPad // c87
-( ' ' ) char[ // c91a
-  // c91b
-3 // c92
-] // c93
-Px , u8 // c96
-Qty // c97
-, match Qty // c100
-as // c101
-Body
-    // c102
-{ // c103
-[
-    // c104
-28 // c105a
-  // c105b
-,
-    // c106
-62 // c107a
-  // c107b
-] // c108
-:
-    // c109
-Logon ,
-    // c111
-148 // c112a
-  // c112b
-: Ack ,
-    // c115
-88 // c116
-: Party
-    // c118
-, 184 : Cancel ,
-    // c123
-} // c124a
-  // c124b
-,
-    // c125
-u16 // c126
-Note @calculatedFrom( // c128a
-  // c128b
-""CRC32"" // c129
-) // c130
-, } // c132
-")).
-Eval vm_compute in ("<<<M1580>>>" ++ check (runes_of_ascii "
 
-  root
-    packet metadata
-	{
-    @lengthOf(
-options1)
+options {
+    //x
+    u128 = 7;
+    asx = 0123456789
+    //
+}
 
-    int32 zchar
-	@calculatedFrom(""// no comment""
+packet len {
+    int8 u128 @lengthOf(a1),
+    @calculatedFrom(""" ++ [233]%N ++ runes_of_ascii "t" ++ [233]%N ++ runes_of_ascii """)
+    @leftPad()
+    @tag(1)
+    //
+    msg_type {
+        // " ++ [128512]%N ++ runes_of_ascii " emoji
+        match leftPad as BodyLength {
+            1 : Foo,
+            [007, 255] : zchar,
+            0 : As,
+            [10, 3, 7, ""abc"", 42] : A,
+            [65535] : calculatedFrom,
+        },
+    },
+    @lengthOf(falsey)
+    repeat BodyLength {
+        char[7] u128 @calculatedFrom(""x y""),
+    },
+    @leftPad('\x00')
+    roots @calculatedFrom(""{,}""),
+    i8i8 @lengthOf(charz),
+    char[7] Header,
+    zchar[42] pack,
+    repeat asx float `{ , }`,
+}
 
-    )
-	`
+MetaData float {
+    u64 len,
+    uint32 MetaDataX `// not a comment`,
+    uint64 Header,
+    crc Logon,
+}
+
+packet u8x {
+    Pad _x `u8 x,`,
+    @calculatedFrom(""packet"")
+    repeat BodyLength metadata,
+    //
+    /// triple
+    @tag(00)
+    repeat u8x {
+        msg_type o `two words`,
+        uint8x @lengthOf(_x),
+        string_ {
+            repeat string string_,
+            repeat string body `a\`,
+            // trailing space 
+            repeat A `" ++ [28040; 24687; 31867; 22411]%N ++ runes_of_ascii "`,
+            match u8x as u8x {
+                ""// no comment"" : options1,
+                [
+                    ""abc"", 10, ""// no comment"", ""abc"", ""CRC32"",
+                    ""CRC32"", ""a	b"", ""packet""
+                ] : i64_,
+                ["""", ""1""] : float,
+                ""1"" : crc,
+                0 : Foo,
+                ""x y"" : A,
+                // a // b
+            },
+        },
+    },
+    char[0] len,
+    body @calculatedFrom(""" ++ [233]%N ++ runes_of_ascii "t" ++ [233]%N ++ runes_of_ascii """) `{ , }`,
+    @tag(0)
+    i32 a1 `line1
+    line2`,
+    @tag(4294967296)
+    @tag(7)
+    body,
+}")).
+Eval vm_compute in ("<<<M1829>>>" ++ check (runes_of_ascii "//	t
+packet MetaDataX {
+    @leftPad()
+    repeat float64 asx,
+}
+
+MetaData Foo {
+    // a // b
+    char[65535] Pad,
+}
+
+packet body {
+    match asx as charz {
+        // `tick` ""quote"" 'q'
+        10 : u8x,
+        ""it's"" : leftPad,
+        3 : metadata,
+        ""it's"" : x,
+        [65535, """ ++ [233]%N ++ runes_of_ascii "t" ++ [233]%N ++ runes_of_ascii """] : u128,
+        10 : len,
+    },
+    repeat f32 rootA ``,// 50% %s
+    @leftPad(' ')
+    repeat i64 BodyLength,
+    repeatCount {
+        i16 crc @lengthOf(u128),
+    },
+    u16 u @lengthOf(f32a) `// not a comment`,// trailing space 
+    len {
+        match Logon as Foo {
+            """ ++ [233]%N ++ runes_of_ascii "t" ++ [233]%N ++ runes_of_ascii """ : stringy,
+            10 : msg_type,
+            //	t
+            [
+                ""\n"", ""`tick`"", ""abc"", """", 007,
+                1, ""a\""b""
+            ] : i64_,
+            255 : T,
+            ""{,}"" : f32a,
+        },
+        string tag @lengthOf(Z9_),
+        // a // b
+        u32 charz `crlf
+        line`,
+        u8x @lengthOf(rootA),
+    },
+    float,
+    int8 repeatCount @lengthOf(f32a) `crlf
+    line`,
+    zchar[7] BodyLength @lengthOf(string_),
+}
+
+packet u128 {
+    x `// not a comment`,
+}//
+
+packet x {
+    A `doc`,
+    Packet @calculatedFrom(""\" ++ [233]%N ++ runes_of_ascii """) `say ""hi""`,
+    repeat string asx,
+    @lengthOf(MetaDataX)
+    repeat char[4294967296] string_ `u8 x,`,
+    @lengthOf(charz)
+    char[0123456789] f32a `say ""hi""`,
+}")).
+Eval vm_compute in ("<<<M209>>>" ++ check (runes_of_ascii "root packet o { repeat zchar[
+65535
+    ] o, repeat char[ // trailing space 
+0 ] zchar,int64 x `
 `
+//
+//
+,// a // b
+string msg_type // a // b
 ,
-
-repeat
-	calculatedFrom `it's`,	//
-  match
-BodyLength
-	as	lengthOf  { 3  /// triple
-	:leftPad	,} , repeat  u128  ,  char[
-    10	]chars ,// @lengthOf(
-	falsey @calculatedFrom(""x y"" )  // c
-`{ , }`
-,
-	@tag(
-42)
-
-float64	i64_
-// packet A { u8 x, }
-
-	,
-u8x @calculatedFrom( ""{,}""
-
-    ) `two words`  
-      //	t
+    // c
+    @leftPad ('\x00' ) repeat
+calculatedFrom
     // trailing space 
-  , 
-@lengthOf(
-T ) char[
-    255
-]pack `it's` 
+    A ,
+string Header@lengthOf( a1)`crlf
+line`  ,repeat crc
+{ f32 Pad,
+    match
+charz
+    /// triple
+    as
+Logon
+    //
+    { [ ""1"" , // c
+""CRC32"" ,	""" ++ [28040; 24687]%N ++ runes_of_ascii """ , 00,
+""1"" , ""{,}"" , """ ++ [28040; 24687]%N ++ runes_of_ascii """	, ""{,}""	]
+// packet A { u8 x, }
+//x
+: uint8x,
+[ 3 , ""CRC32""
+] :
+    // a // b
+    lengthOf , 42 : u128 , }
+    ,  Z9_ ,
+    float64
+u128
+`{ , }` , }
 ,
-	match 
-MetaDataX
-as
+    u16 calculatedFrom
+,
+zchar[
+3 ]
+calculatedFrom //	t
+,
+@tag( 10) match charz as _x {
+    ""abc""
+    /// triple
+    :
+// `tick` ""quote"" 'q'
+//	t
+zchar
+, ""packet"" : roots ,255 //x
+: options1 , ""1""	: uint8x// packet A { u8 x, }
+,
+    // 50% %s
+    }
+    // trailing space 
+    ,
+}MetaData
+len { uint8x len , } packet options1{ @tag( 10
+    ) i8	roots@lengthOf( lengthOf  )	,
+char[
+1 ]u128 `" ++ [28040; 24687; 31867; 22411]%N ++ runes_of_ascii "` // @lengthOf(
+, a1 tag
+    `say ""hi""` ,
+    string
+    asx
+`// not a comment` ,
+    } packet calculatedFrom{ int64
+    a1//x
+,
+// a // b
+//x
+}")).
+Eval vm_compute in ("<<<M1480>>>" ++ check (runes_of_ascii "options	{
+LittleEndian=true ;
+StringPrefixLenType  = u8 ; ArrayPrefixLenType
 
-i64_  {  
-      //
-    """ ++ [28040; 24687]%N ++ runes_of_ascii """	// @lengthOf(
+= u8 
+; FixedStringPadFromLeft =true
+    ;
 
-	:
-Header
+FixedStringPadChar
+    =	'0' ;
+	}
+
+packet
+	Logon  {
+repeat	i8  Ref
 
     ,
 
-    0
-//
-  	: 
-x_y_z
+    @rightPad (
 
-3
-:// `tick` ""quote"" 'q'
+'0'  )char[
+    8]
 
-int
-""abc""
-// @lengthOf(
-
-:u8x
-
+msgKind ,repeat
+InOrderid72 { 
+u8 Side2
 ,
 
-    } ,	}
-    packet	i64_
+    uint32
+
+    Qty
+, repeat InPrice27{ repeat 
+char[4
+]  Acct
+	,
+
+    u64
+sym	,
+} ,
+
+zchar[
+    4]
+    clOrdID
+,int16
+
+lastPx
+	,
+    InAcct22 {
+repeat
+
+    char[	3
+
+]
+
+    OrderId,}
+,
+    }
+, int64
+
+Px	, } 
+packet Fill
+
+{ uint16 
+Qty
+
+,
+repeat char[ 1 ]
+Flags
+
+    ,i8 Ref
+
+, } packet	Logout
 {
+@leftPad(
+'0'
 
-@rightPad
-(
-    ) 	 /// triple
-  	pack
-    { 
-match
-	MetaDataX  as
+    ) char[
+3]
+    x, int8
+    f1  , Logon 
+, uint16 venue
+,
+zchar[  2 ]
 
-    trueish
-    {
+    Px
+,
+	} packet 
+Reject	{
+} root packet 
+Leg
 
-1	// @lengthOf(
-	:len
-	00
+    {	Fill  ,u16
+
+msgKind 
+,
+    match
+    msgKind
+as
+Body
+    {[182
+,  83
+
+]
 
 :
-
-falsey  // packet A { u8 x, }
-  , """": x
+	Fill 
 ,
 
-    } 
-,
+    199
+
+    :
+Reject,
+    137
+:
+	Logout  ,	35:Logon ,}	,
+
+u32
+lastPx@calculatedFrom( 
+""CRC32""
+
+    ),
+}")).
+Eval vm_compute in ("<<<M1505>>>" ++ check (runes_of_ascii "packet i8i8 {
+    // trailing space 
+    // " ++ [27880; 37322]%N ++ runes_of_ascii "
+    MetaDataX @lengthOf(chars) `" ++ [233]%N ++ runes_of_ascii "`,// 50% %s
+    char[] u128 @lengthOf(u8x),
+    @lengthOf(T)
+    float64 repeatCount,
+    @tag(00)
+    MetaDataX,
+    // a // b
+    // trailing space 
+    uint64 chars `tab	here`,
+    string_ @lengthOf(As) ``,
+    zchar[00] asx @lengthOf(metadata) `line1
+        line2`,
+    @lengthOf(charz)
+    charz f32a `" ++ [28040; 24687; 31867; 22411]%N ++ runes_of_ascii "`,
+    @rightPad('\x00')
+    repeat BodyLength tag,
 }
 
-,
-    @tag( 1
-) 
-char[]
-	int  @lengthOf( metadata )  // packet A { u8 x, }
-	  ,  a1
+packet repeatCount {
+    crc stringy,
+}
 
+options {
+    zchar = char[];
+    options1 = false
+    repeatCount = ""a	b""
+    body = ""`tick`""
+}
+
+// a // b
+//x
+MetaData MetaDataX {
+    Pad repeatCount `u8 x,`,
+    char[42] f32a ``,
+    _x Z9_,
+}
+
+packet Logon {
+    @tag(007)
+    o {
+        char Packet @lengthOf(repeatCount),
+    },
+}// a // b")).
+Eval vm_compute in ("<<<M1899>>>" ++ check (runes_of_ascii "// top
+packet A {
+    // c2a
+    // c2b
+    u8 a,// c5
+}// c6a
+
+// c6b
+packet B {
+    // c9
+    u16 b,
+}// c13a
+
+// c13b
+packet C {
+    // c16a
+    // c16b
+    u32 c,
+}
+
+// c20
+root packet M {
+    // c24
+    u16 Kc,// c27a
+    // c27b
+    u16 Kb,// c30a
+    // c30b
+    u16 Ka,
+    // c33
+    match Kc as X {
+        9 : A,
+        10 : B,
+        // c46
+    },// c48a
+    // c48b
+    match Kb as Y {
+        2 : C,
+        // c57a
+        // c57b
+        1 : A,
+        // c61
+    },// c63a
+    // c63b
+    match Ka as Z {
+        // c68
+        1 : B,
+        // c72a
+        // c72b
+    },// c74a
+    // c74b
+    A,// c76
+    B,// c78a
+    // c78b
+    C,// c80a
+    // c80b
+}// c81")).
+Eval vm_compute in ("<<<M1870>>>" ++ check (runes_of_ascii "options {
+    stringy = zchar[0123456789]
+}
+
+MetaData charz {
+    zchar[42] calculatedFrom,
+    // `tick` ""quote"" 'q'
+    char[65535] trueish,
+    float64 roots `doc`,
+}
+
+packet calculatedFrom {
+    @calculatedFrom(""" ++ [128512]%N ++ runes_of_ascii """)
+    string crc `crlf
+        line`,
+    MetaDataX {
+        Packet @lengthOf(packetx) `{ , }`,// trailing space 
+        repeat trueish As,
+    },
+    int64 T,// `tick` ""quote"" 'q'
+    match uint8x as i64_ {
+        00 : _x,
+        65535 : Z9_,
+        ""1"" : u8x,
+        007 : Z9_,
+        /// triple
+        255 : matchKey,
+        ""1"" : crc,
+    },// " ++ [128512]%N ++ runes_of_ascii " emoji
+}// @lengthOf(")).
+Eval vm_compute in ("<<<M1437>>>" ++ check (runes_of_ascii "
+
+  // 50% %s
+
+  packet
+	crc{ char[65535 ]
+    Foo`" ++ [233]%N ++ runes_of_ascii "`	, calculatedFrom Header ,
+stringy
+MetaDataX  , @lengthOf(
+//
+    BodyLength ) 
+lengthOf
+	{  f32
+	u
+
+`100% of %d`  ,
+
+T
 @lengthOf(
+	leftPad)
+	,  f32
+// 50% %s
+	  f32a `it's`	, zchar[  255
+]  crc
+    ,  }
+,
+Pad
+@calculatedFrom(
+	""abc"") , @lengthOf(
+repeatCount
 
-    calculatedFrom ) ,@tag(	7
-)
-tag @lengthOf(
-    u
+) @rightPad
 
-)  ,
-BodyLength 	 /// triple
-	@calculatedFrom(
-	""it's"" 
-)
-	`say ""hi""` , string msg_type , } MetaData	Logon { 
-BodyLength 
-_x
-`it's`
+    (	) 
+@tag( 
+1 // trailing space 
+	  )//	t
+  char[7
+]
 
-,  int32	body  , 
+MetaDataX @calculatedFrom(
 
-// trailing space 
-}
-    root packet
-    body
-{
-}
+""\n"" )	,
+	repeat
+
+    uint64
+pack,
+	@calculatedFrom(	""CRC32"")repeat
+    x_y_z  msg_type
+    `say ""hi""` 
+,
+	}
 
 ")).
-Eval vm_compute in ("<<<M1355>>>" ++ check (runes_of_ascii "options	{ 
-StringPrefixLenType 
-=
-
-    u64; ArrayPrefixLenType =u32 ;FixedStringPadFromLeft=	false ;
-} 
-packet	Party {
-    zchar[ 7	]OrderId
-	, InTail6
-
-{  repeat 
-char[
-
-1 ]
-
-msgKind
+Eval vm_compute in ("<<<M370>>>" ++ check (runes_of_ascii "// 50% %s
+packet crc
+{  char[65535	] Foo
+    `" ++ [233]%N ++ runes_of_ascii "` , calculatedFrom	Header, stringy MetaDataX, @lengthOf(
+    //
+    BodyLength
+    ) lengthOf  { f32 u `100% of %d`
+,T
+    @lengthOf(
+leftPad )	,f32
+    // 50% %s
+    f32a `it's`
 ,
+    zchar[	255 ]crc , } ,Pad
+    @calculatedFrom( ""abc"" ) ,
+    @lengthOf(
+repeatCount  ) @rightPad ( ) @tag( 1// trailing space 
+) //	t
 char[
-
-    3 ]	Tail
-	,
-char[
-3
-]
-    Flags , i16  tag7
-    , }  ,
-	@rightPad
-	(
-
-'0'
-) char[  12
-    ]clOrdID
-	,
-    }
-
-    packet
-	Quote
-{ @leftPad
-
-    ('0'  )
-
-char[
-    11]  price	,	repeat InCount7
-{
-i32
-
-x,
-Party
-    ,  u8 Ref,
-    u8 
-tag7
-
-    , 
-} , char[]
-    seqNo,
-
-    Party 
-,}
-packet  Logon
-
-    {
-
-@rightPad 
-(	'\x00'
-
-    ) 
-char[
-
-5 
-]	Note 
-,	i16
-
-    sym ,InPrice72
-{
-    char[
-
-    9] Ref
-
-    ,zchar[ 1
-] venue ,
-
-    }
-,  char[]
-clOrdID ,	}
-	root
-packet	Reject
-
-{
-repeat
-
-    Logon	,
-
-    @leftPad
-
-    (	' ' ) char[  4
-
-    ]
-
-    seqNo
-
-, zchar[ 5
-	]
-Acct ,
-	u32
-
-x 
-,u16  f1
-	@lengthOf(Body
-
-)
-
-    , 
-match
-x as
-Body
-{
-
-    [  169 ,
-
-    74	]	: Quote , 45
-: 
-Party
-, 7 
-: Logon
-
-    ,
+7 ] MetaDataX
+@calculatedFrom(
+""\n"" ) ,	repeat uint64 pack,
+@calculatedFrom(
+""CRC32"") repeat x_y_z
+msg_type `say ""hi""` , }")).
+Eval vm_compute in ("<<<M1369>>>" ++ check (runes_of_ascii "options {
+    LittleEndian = true;
+    ArrayPrefixLenType = u32;
+    FixedStringPadChar = ' ';
 }
-
-    ,
-
-} ")).
-Eval vm_compute in ("<<<M1880>>>" ++ check (runes_of_ascii "options {
+packet Order {
+    char[5] seqNo,
+    uint8 Px,
+}
+packet Logon {
+    @rightPad('\x00') char[8] Flags,
+    zchar[3] count,
+    repeat Order,
+}
+root packet Party {
+    repeat Logon,
+    repeat char[1] x,
+    u32 price,
+    u32 Side2 @lengthOf(Body),
+    match price as Body {
+        49 : Order,
+        196 : Logon,
+    },
+    u32 f1 @calculatedFrom(""CRC32""),
+}
+")).
+Eval vm_compute in ("<<<M1453>>>" ++ check (runes_of_ascii "options {
+    LittleEndian = false;
+    StringPrefixLenType = u16;
     FixedStringPadFromLeft = true;
     FixedStringPadChar = '0';
 }
 
-packet Leg {
-    repeat InSym93 {
-        zchar[3] Acct,
-        string Side2,
-        i32 Flags,
-        f32 Note,
-        i32 msgKind,
-    },
-    f64 Note,
-    uint16 Px,
-}
-
-packet Quote {
-    zchar[2] OrderId,
-}
-
-packet Ack {
-    repeat string lastPx,
-    zchar[4] price,
-    uint32 OrderId,
-    Quote,
-    int8 Acct,
-}
-
 packet Fill {
-    repeat Leg,
-    @rightPad('0')
-    char[11] Note,
-    f64 Px,
-    @rightPad('\x00')
-    char[5] Flags,
-    zchar[9] x,
-    string msgKind,
 }
 
 root packet Order {
-    Leg,
-    repeat Ack,
+    repeat Fill,
+    char[] clOrdID,
     @rightPad('\x00')
-    char[3] Side2,
-    repeat char[1] seqNo,
-    u16 clOrdID,
-    match clOrdID as Body {
-        198 : Leg,
-        23 : Quote,
-        13 : Ack,
-        159 : Fill,
+    char[4] lastPx,
+    char[] OrderId,
+    int8 tag7,
+    u8 f1,
+    u16 count @lengthOf(Body),
+    match f1 as Body {
+        [159, 49] : Fill,
     },
-    u32 venue @calculatedFrom(""CR\
-    C32""),
+    u16 Tail @calculatedFrom(""CRC32""),
 }")).
-Eval vm_compute in ("<<<M1454>>>" ++ check (runes_of_ascii "packet calculatedFrom {
-    // a // b
-    string charz `two words`,
+Eval vm_compute in ("<<<M1493>>>" ++ check (runes_of_ascii "root packet a1 {
+    i8 A @calculatedFrom(""\" ++ [233]%N ++ runes_of_ascii """),
+    @lengthOf(int)
+    @lengthOf(len)
+    @lengthOf(f32a)
+    string u8x `say ""hi""`,
+    char[00] As @lengthOf(Z9_),
+    repeat leftPad,
+    repeat x_y_z,
+    @rightPad('0')
+    f64 lengthOf @calculatedFrom(""`tick`"") `100% of %d`,
+    repeat char Foo,
+    match msg_type as x_y_z {
+        [255, 7, 10, ""a	b""] : Foo,
+        // a // b
+    },
+}")).
+Eval vm_compute in ("<<<M67>>>" ++ check (runes_of_ascii "
+options { } options { string_
+=
+    char[255 ] ;}packet
+    stringy{
+    match
+len as	i8i8  { ""\" ++ [233]%N ++ runes_of_ascii """ :// " ++ [27880; 37322]%N ++ runes_of_ascii "
+float
+    , """ ++ [233]%N ++ runes_of_ascii "t" ++ [233]%N ++ runes_of_ascii """
+: roots , """ ++ [233]%N ++ runes_of_ascii "t" ++ [233]%N ++ runes_of_ascii """ : // " ++ [27880; 37322]%N ++ runes_of_ascii "
+lengthOf ,
+65535: T """ ++ [233]%N ++ runes_of_ascii "t" ++ [233]%N ++ runes_of_ascii """ : falsey ,	4294967296: //
+o }
+,
+    @lengthOf( Pad) @tag( 3 ) match options1 as As { [ ""\n"" , 255
+    , 42 ,""CRC32"" ,	""CRC32"" ] :
+roots// @lengthOf(
+, 42:
+pack, """ ++ [233]%N ++ runes_of_ascii "t" ++ [233]%N ++ runes_of_ascii """ : Z9_,
+} , }")).
+Eval vm_compute in ("<<<M131>>>" ++ check (runes_of_ascii "MetaData  u
+{ f64 roots , zchar trueish,}  root
+    packet Foo // @lengthOf(
+{ packetx  ,
+repeat zchar[ // trailing space 
+3 ]
+    // " ++ [128512]%N ++ runes_of_ascii " emoji
+    msg_type `
+` ,  } root packet Header { match u8x
+as options1 {
+4294967296 :metadata , // `tick` ""quote"" 'q'
+4294967296
+    :
+    // trailing space 
+    float , }
+    ,//x
+}")).
+Eval vm_compute in ("<<<M1811>>>" ++ check (runes_of_ascii "packet roots {
+    pack ``,//	t
+    T @lengthOf(tag),
+    x {
+        match len as packetx {
+            [10] : rootA,
+        },
+        repeat string leftPad `
+                `,//	t
+        char[7] Packet @calculatedFrom(""a	b""),
+        char[] uint8x ``,
+    },
+    uint16 leftPad,
+}")).
+Eval vm_compute in ("<<<M1492>>>" ++ check (runes_of_ascii "MetaData Logon {
+    char[255] msg_type,
+    A msg_type,
+    char[4294967296] u,// 50% %s
 }
 
-packet stringy {
-    @lengthOf(msg_type)
+root packet uint8x {
+    match _x as len {
+        255 : a1,
+        10 : options1,
+    },
     crc,
-    @leftPad('0')
-    crc @lengthOf(u128),
-    @leftPad(' ')
-    match x_y_z as rootA {
-        [3, 255] : int,
-        ""1"" : o,
-        // a // b
-        10 : tag,
-        // c
-        10 : Header,
-        3 : a1,
-        """ ++ [128512]%N ++ runes_of_ascii """ : packetx,
-    },
-    match o as x {
-        ""a	b"" : u8x,
-    },
-    @rightPad()
-    repeat u packetx,
-    T,
-    repeat Logon,
-    T {
-        repeat x_y_z,// a // b
-        i8 crc `two words`,
-        char[] calculatedFrom @calculatedFrom(""x y""),
-    },
-    roots calculatedFrom,
-    @lengthOf(asx)
-    repeat x_y_z {
-        T matchKey,
-    },
+    @lengthOf(Header)
+    repeat roots `say ""hi""`,
+    //
+    // c
+}")).
+Eval vm_compute in ("<<<M489>>>" ++ check (runes_of_ascii "packet
+    asx { @calculatedFrom(
+""""  ) @tag( 255 )repeat
+// packet A { u8 x, }
+// trailing space 
+int16 u8x
+,
+@tag(
+    //
+    007 )
+    @tag( 0
+    /// triple
+    ) @tag( options) u
+    @lengthOf( T ),
+// `tick` ""quote"" 'q'
+//x
+} // " ++ [128512]%N ++ runes_of_ascii " emoji")).
+Eval vm_compute in ("<<<M517>>>" ++ check (runes_of_ascii "packet
+    asx { @calculatedFrom(
+""""  ) @tag( 255 )repeat
+// packet A { u8 x, }
+// trailing space 
+int16 u8x
+,
+@tag(
+    //
+    007 )
+    @tag( 0
+    /// triple
+    ) @tag( 1) u
+    @lengthOf( T ), ,
+// `tick` ""quote"" 'q'
+//x
+} // " ++ [128512]%N ++ runes_of_ascii " emoji")).
+Eval vm_compute in ("<<<M449>>>" ++ check (runes_of_ascii "packet
+    asx { @calculatedFrom(
+""""  ) @tag( 255 )repeat
+// packet A { u8 x, }
+// trailing space 
+int16 u8x
+]
+@tag(
+    //
+    007 )
+    @tag( 0
+    /// triple
+    ) @tag( 1) u
+    @lengthOf( T ),
+// `tick` ""quote"" 'q'
+//x
+} // " ++ [128512]%N ++ runes_of_ascii " emoji")).
+Eval vm_compute in ("<<<M486>>>" ++ check (runes_of_ascii "packet
+    asx { @calculatedFrom(
+""""  ) @tag( 255 )repeat
+// packet A { u8 x, }
+// trailing space 
+int16 u8x
+,
+@tag(
+    //
+    007 )
+    @tag( 0
+    /// triple
+    ) @tag( ) u
+    @lengthOf( T ),
+// `tick` ""quote"" 'q'
+//x
+} // " ++ [128512]%N ++ runes_of_ascii " emoji")).
+Eval vm_compute in ("<<<M248>>>" ++ check (runes_of_ascii "packet roots
+{ @lengthOf(	Header ) @tag( 4294967296 //	t
+) repeat leftPad `
+` , calculatedFrom
+    // packet A { u8 x, }
+    {
+repeat
+    char[] As , } , //	t
+char[] charz
+@calculatedFrom( //
+""" ++ [28040; 24687]%N ++ runes_of_ascii """	) ,
+    uint8x `tab	here` ,}")).
+Eval vm_compute in ("<<<M1606>>>" ++ check (runes_of_ascii "
+packet
+
+zchar 
+{@lengthOf(
+charz
+
+) zchar@lengthOf(
+	Header	)
+	`
+`  ,
+	u8
+    calculatedFrom
+, @calculatedFrom( ""x y"" 
+) u128 @calculatedFrom( ""it's""  )
+
+, }
+options
+
+{  float= 007  uint8x =  ""`tick`""; } ")).
+Eval vm_compute in ("<<<M1423>>>" ++ check (runes_of_ascii "
+
+  packet 
+asx
+
+    {
+
+    f32
+u
+@calculatedFrom(
+
+    ""packet"")
+,
+}
+MetaData  tag
+
+    {	zchar[
+	007 ]
+
+pack  ,
+
+zchar[
+
+    00 ]	// packet A { u8 x, }
+len  `
+`
+
+    , } ")).
+Eval vm_compute in ("<<<M1585>>>" ++ check (runes_of_ascii "options {
+    Packet = u16;
+    f32a = ""a\""b""
+    lengthOf = '0';
+    uint8x = i8
+    uint8x = '\x00';
+}
+
+packet rootA {
 }
 
 options {
-    float = char[1];
-    msg_type = i8
-    x = zchar[7];
-    f32a = ""\n""
+    uint8x = ""\" ++ [233]%N ++ runes_of_ascii """
+}
+
+MetaData Packet {
 }")).
-Eval vm_compute in ("<<<M1416>>>" ++ check (runes_of_ascii "packet // packet A { u8 x, }
-		u8x {
-}  root
-packet
-    matchKey
-{ repeat 
-zchar[ 0123456789  ]// packet A { u8 x, }
-	int
-, 
-char[ 
-    // `tick` ""quote"" 'q'
-      // a // b
-4294967296 ]asx`{ , }`  ,
-
-    repeat 
-i8i8, repeat Packet {
-    repeat leftPad{	f32
-
-    u128
-
-    @lengthOf(
-	As ) ,
-	body
-	`two words`, 	 // packet A { u8 x, }
-  rootA
-
-    Pad,  }
-
-    ,char[00
-    ]msg_type
-
-`tab	here`// " ++ [128512]%N ++ runes_of_ascii " emoji
-  , repeat
-//x
-      i64_`doc`
-, zchar x_y_z
-, }
-
-    ,} root
-
-    packet int	{repeat f32a
-
-{repeat
-f32a  asx 
-`u8 x,`
-    , 
-}, @lengthOf( 
-// @lengthOf(
-	//	t
-	msg_type// packet A { u8 x, }
-	)
+Eval vm_compute in ("<<<M1779>>>" ++ check (runes_of_ascii "
+packet  A
+    {u16
+    len @lengthOf(
 
     body
-,  
-  // c
-//
-Z9_ 	 // c
-
-	zchar	`a\` //x
-,}  //x
- 
-")).
-Eval vm_compute in ("<<<M23>>>" ++ check (runes_of_ascii "MetaData lengthOf
-{ }
-MetaData falsey { // " ++ [27880; 37322]%N ++ runes_of_ascii "
-falsey i64_
-`
-`	, zchar[ 255	] u `two words` ,	BodyLength int , matchKey	i8i8 `crlf
-line` ,uint8x	asx ,
-char[]options1 ,	}packet
-    asx  {	@lengthOf( o
-)@calculatedFrom(//
-""\n"" ) char[] lengthOf  `two words`// c
-,
-    BodyLength `" ++ [233]%N ++ runes_of_ascii "` ,repeat u8x len // " ++ [27880; 37322]%N ++ runes_of_ascii "
-`doc`
-, int
-@calculatedFrom(
-""a\\""
-    ) `line1
-line2`,@lengthOf( MetaDataX
-)
-Packet packetx
-    // `tick` ""quote"" 'q'
-    , a1 {
-    match Logon	as
-// " ++ [128512]%N ++ runes_of_ascii " emoji
-/// triple
-len {	4294967296
-:matchKey , [
-1  , 10 , 10 ,
-""{,}"" , """ ++ [233]%N ++ runes_of_ascii "t" ++ [233]%N ++ runes_of_ascii """ , 0123456789]: leftPad ,  3
-    :msg_type ,
-//	t
-//x
-1 : As
-,} ,
-    chars , }
-    ,}
-")).
-Eval vm_compute in ("<<<M1680>>>" ++ check (runes_of_ascii "packet
-A { 	 // c2a
-// c2b
-    	u8 
-      // c3
-
-	a, 
-  // c5
-      } 	 // c6a
-// c6b
-  packet
-	B  // c8
-{ // c9
-  u16 
-
-    // c10
-	  b 	 // c11
-    	,  // c12
-
-} 	 // c13a
-    // c13b
-  root// c14a
-      // c14b
-    packet 	 // c15a
-
-  // c15b
-  P 
-    // c16
-
-	{u8	// c18a
-  // c18b
-      K	// c19
-, match // c21
-
-K// c22a
-
-// c22b
-  as// c23
-M 	 // c24
-  {  // c25a
-  // c25b
-		1
-
-    : 	 // c27a
-// c27b
-	A  // c28a
-	  // c28b
-    , 
-	    // c29
-	1 
-  // c30
-    :
-	B  
-      // c32
-	  , 
-      // c33
-    } 	 // c34a
-  // c34b
+) 
+`100% of %s %d %v` 
 , 
-    // c35
-  }
+u32
+crc
+
+    @calculatedFrom(  ""CRC32"" )
+
+    `100% of %s %d %v`
+,
+	string body  ,
+}
+
 ")).
-Eval vm_compute in ("<<<M1440>>>" ++ check (runes_of_ascii "root packet lengthOf {
-    char[3] Pad,
-    @rightPad('0')
-    crc `doc`,
-    i32 uint8x,
-    zchar {
-        match Logon as int {
-            [0, """ ++ [233]%N ++ runes_of_ascii "t" ++ [233]%N ++ runes_of_ascii """] : o,
-            ""// no comment"" : len,
-        },
-        asx {
-            //x
-            char[10] u128 @lengthOf(x_y_z) `say ""hi""`,
-        },
-        char[1] A,
-        u chars ``,
+Eval vm_compute in ("<<<M1800>>>" ++ check (runes_of_ascii "packet A {
+    match k as n {
+        [
+            ""a"", ""bb"", 007, ""d"", ""e"",
+            66, ""g"", ""h"", 9, ""j"",
+            ""k""
+        ] : B,
+        2 : C,
     },
-    repeat matchKey {
-        //x
-        string trueish @calculatedFrom(""a	b""),
-        repeat i8 msg_type `it's`,
-    },/// triple
-}
-
-packet float {
 }")).
-Eval vm_compute in ("<<<M264>>>" ++ check (runes_of_ascii "options  {
-    float
+Eval vm_compute in ("<<<M633>>>" ++ check (runes_of_ascii "MetaData u
+    { } MetaData o
+{ float uint8x
+`100% of %d` ,repeatCount u8x, string_ leftPad
+, Foo
+    i32 , int64 x `two words` , calculatedFrom
+stringy `a\` ,
+}
+")).
+Eval vm_compute in ("<<<M1403>>>" ++ check (runes_of_ascii "packet A {
+    match k as n {
+        [
+            ""a"", 22, ""c c"", 4, ""e"",
+            66, ""g"", 8, ""i"", 10,
+            ""k""
+        ] : B,
+        2 : C,
+    },
+}")).
+Eval vm_compute in ("<<<M1951>>>" ++ check (runes_of_ascii "options  {
+Packet
 =
-    char[]
-} // packet A { u8 x, }
-root packet
-    Logon
-    { @tag( 1 ) // a // b
-@calculatedFrom( ""packet""
-// a // b
-// " ++ [128512]%N ++ runes_of_ascii " emoji
-)zchar[ 3 ]
-// c
-//x
-Z9_ ,@lengthOf( charz )
-@calculatedFrom( ""1""
-)match
-roots
-as int
-    { ""a	b""
-:MetaDataX , }
-    ,@calculatedFrom( ""a\""b""	)
-    match
-    asx as lengthOf { """ ++ [128512]%N ++ runes_of_ascii """
-    : _x,
-[ 255 ] : BodyLength
-    ,3 :
-    u8x , 0123456789:T} ,
-    len@lengthOf(leftPad )`u8 x,` , } // @lengthOf(")).
-Eval vm_compute in ("<<<M1441>>>" ++ check (runes_of_ascii "// top
-MetaData Packet {
-    // c2
-}
+true
+msg_type  =  false 	 // 50% %s
+  	Logon // @lengthOf(
+	=
+true
+packetx 
+	    //
+// `tick` ""quote"" 'q'
+  = 
+""abc""	;
+pack =
+	' '}
+")).
+Eval vm_compute in ("<<<M1309>>>" ++ check (runes_of_ascii "
+packet	A
+	{
 
-// c3
-packet charz {
-    // c6
-    Foo asx `it's`,
-    // c10
-    @lengthOf(T)
-    // c13
-    @calculatedFrom("""")
-    // c16
-    @calculatedFrom(""x y"")
-    // c19
-    zchar[007] repeatCount @lengthOf(int) `a\`,
-    // c28
-    i8 string_,
-    // c31
-    repeat options1 Pad,
-    // c35
-}
+u8  a
 
-// c36
-root packet Packet {
-    // c40
-    int8 float `doc`,
-    // c44
+,
+
 }
-// c45")).
-Eval vm_compute in ("<<<M1624>>>" ++ check (runes_of_ascii "// top
-root packet _x {
-    match Foo as Z9_ {
-        // c8
-        ""a	b"" : Pad,
-        // c12
-    },// c14
-    repeat x `line1
-        line2`,// c18
-    @rightPad(' ')
-    // c22
-    @calculatedFrom(""a\\"")
-    // c25a
-    // c25b
-    metadata MetaDataX,
-    @tag(0)
-    // c31
-    Logon int ``,
-    // c35
-}// c36
+packet B
+    {
+
+u16	b
+
+    ,}root
+
+    packet
+	P
+
+{ u8
+
+    K
+,
+    match  K as M 
+{
+1 :
+A, 1
+
+    :
+	B , 
+} , } ")).
+Eval vm_compute in ("<<<M1468>>>" ++ check (runes_of_ascii "packet A {
+    Inner {
+        u8 x `
+                `,
+        Deep {
+            u8 y `
+                        `,
+        },
+    },
+}")).
+Eval vm_compute in ("<<<M670>>>" ++ check (runes_of_ascii "MetaData u
+    { } MetaData o
+{ float uint8x
+`100% of %d` ,repeatCount u8x, string_ leftPad
+, i32
+    Foo , int64 x `two words` ,")).
+Eval vm_compute in ("<<<M1479>>>" ++ check (runes_of_ascii "options {
+}
 
 options {
-    // c38
-    T = '\x00'
-}// c42a
-// c42b")).
-Eval vm_compute in ("<<<M77>>>" ++ check (runes_of_ascii "
-packet	float { char[ 42] int`say ""hi""` , @tag( 255// packet A { u8 x, }
-) match// a // b
-stringy  as
-    x { [ 00 ,42
-]: i64_ 42 : matchKey , [ ""1"" , 1
-, 42
-    ,
-""" ++ [28040; 24687]%N ++ runes_of_ascii """ , ""abc"" ,
-// a // b
-//x
-1 // trailing space 
-]
-: //
-roots
-,
-    65535
-: trueish ,	} ,@calculatedFrom( ""{,}"" )body @calculatedFrom(""" ++ [28040; 24687]%N ++ runes_of_ascii """ ) , zchar[
-    007 ] lengthOf, }
-")).
-Eval vm_compute in ("<<<M368>>>" ++ check (runes_of_ascii "MetaData T
-    {
-uint8
-float ,
-repeatCount x ,	char[ 10  ] asx /// triple
-, char[ 00]
-metadata
-    `" ++ [233]%N ++ runes_of_ascii "` ,u8x asx//	t
-, } MetaData
-    trueish {	charz	string_ `crlf
-line`,  zchar[ 42 ]	_x
-//
-// `tick` ""quote"" 'q'
-, }packet o { char[]u8x
-    @calculatedFrom(""abc""  ) , } options{ x
-=
-    255 ; u // " ++ [27880; 37322]%N ++ runes_of_ascii "
-= '0'	}
-")).
-Eval vm_compute in ("<<<M1751>>>" ++ check (runes_of_ascii "options {
-    A = i16;
+    MetaDataX = char;
 }
 
-/// triple
-root packet rootA {
-    @tag(7)
-    int16 pack,
-    Logon @calculatedFrom(""a\""b"") `{ , }`,
-    @rightPad('\x00')
-    //
-    //
-    char[7] options1 `tab	here`,
-    @calculatedFrom(""" ++ [233]%N ++ runes_of_ascii "t" ++ [233]%N ++ runes_of_ascii """)
-    int @lengthOf(Packet) `crlf
-        line`,
+MetaData Pad {
+    i8 metadata,
+    string stringy,
+    int8 As `{ , }`,
 }")).
-Eval vm_compute in ("<<<M267>>>" ++ check (runes_of_ascii "packet trueish{
-@leftPad (// @lengthOf(
-'0'  ) @tag(  3/// triple
-) @tag(
-7 ) repeat
-//x
-// @lengthOf(
-matchKey
-{ u32 u,
-}  , @lengthOf( chars
-) @calculatedFrom(
-""a	b"") @tag( 0123456789
-    )zchar[255 ]Pad ,  } root
-    packet u { }
-")).
-Eval vm_compute in ("<<<M1710>>>" ++ check (runes_of_ascii "  root packet 
-As 
-{  //
+Eval vm_compute in ("<<<M1575>>>" ++ check (runes_of_ascii "
+options
 
-char	charz
-    @lengthOf(
+    {  x
 
-    packetx ) `{ , }`
-
-    ,  //
-
-char[ 0123456789
-    ] MetaDataX
-    // " ++ [27880; 37322]%N ++ runes_of_ascii "
-    // `tick` ""quote"" 'q'
-    `it's`,
-
-    zchar[
-7
-
-]
-	o
-	`u8 x,`
+    =	""a\\"" ; }
+    MetaData u	{
+u8  falsey 
 ,
 
-} ")).
-Eval vm_compute in ("<<<M169>>>" ++ check (runes_of_ascii "root packet
-    // `tick` ""quote"" 'q'
-    string_ { repeat
-char[00]  rootA
-    ,
-// " ++ [128512]%N ++ runes_of_ascii " emoji
-// " ++ [27880; 37322]%N ++ runes_of_ascii "
-}
-    MetaData u {i32 options1,
-}MetaData
-rootA
-{
-u16  chars	,
-/// triple
-//x
-}
-")).
-Eval vm_compute in ("<<<M1841>>>" ++ check (runes_of_ascii "packet crc {
-    @leftPad()
-    repeat charz float,
-}
+crc
+    zchar
 
-root packet options1 {
-    @tag(65535)
-    packetx {
-        u128,
-        f32 a1,
-    },
-}
-// trailing space ")).
-Eval vm_compute in ("<<<M195>>>" ++ check (runes_of_ascii "MetaData msg_type {} root packet
-A{ repeat i32 leftPad
-`it's`
 ,
-    //x
-    }  root
-    packet a1
-    {char[
-    // c
-    255 ]
-    falsey // @lengthOf(
-, }")).
-Eval vm_compute in ("<<<M403>>>" ++ check (runes_of_ascii "packet uint8x
-007 match pack
-    as msg_type	{
-    0123456789 :	float
-}
-,
-} packet //	t
-a1
-    { } options {packetx
-    = '\x00'	; u128= ""a	b""  ; }
-")).
-Eval vm_compute in ("<<<M550>>>" ++ check (runes_of_ascii "packet uint8x
-{ match pack
-    as msg_type	{
-    0123456789 :	caf" ++ [233]%N ++ runes_of_ascii "_1
-}
-,
-} packet //	t
-a1
-    { } options {packetx
-    = '\x00'	; u128= ""a	b""  ; }
-")).
-Eval vm_compute in ("<<<M512>>>" ++ check (runes_of_ascii "packet uint8x
-{ match pack
-    as msg_type	{
-    0123456789 :	float
-}
-,
-} packet //	t
-a1
-    { } options {packetx
-    = '\x00'	; =u128 ""a	b""  ; }
-")).
-Eval vm_compute in ("<<<M503>>>" ++ check (runes_of_ascii "packet uint8x
-{ match pack
-    as msg_type	{
-    0123456789 :	float
-}
-,
-} packet //	t
-a1
-    { } options {packetx
-    = char	; u128= ""a	b""  ; }
-")).
-Eval vm_compute in ("<<<M691>>>" ++ check (runes_of_ascii "// @lengthOf(
-packet i8i8 { u128 o , }
-options f64 MetaDataX = true;
-    BodyLength =""packet"" x_y_z= 007
-crc //x
-= ""abc"" ;
-    msg_type =
-i16 }")).
-Eval vm_compute in ("<<<M715>>>" ++ check (runes_of_ascii "// @lengthOf(
-packet i8i8 { u128 o , options
-} { MetaDataX = true;
-    BodyLength =""packet"" x_y_z= 007
-crc //x
-= ""abc"" ;
-    msg_type =
-i16 }")).
-Eval vm_compute in ("<<<M1845>>>" ++ check (runes_of_ascii "packet A {
-    match k as n {
-        [
-            ""a"", ""bb"", ""c c"", ""d"", ""e"",
-            ""f"", ""g""
-        ] : B,
-        2 : C,
-    },
-}")).
-Eval vm_compute in ("<<<M1494>>>" ++ check (runes_of_ascii "root packet As {
-    //
-    char charz @lengthOf(packetx) `{ , }`,//
-    char[0123456789] MetaDataX `it's`,
-    zchar[7] o `u8 x,`,
-}")).
-Eval vm_compute in ("<<<M1431>>>" ++ check (runes_of_ascii "packet A {
-    match k as n {
-        [
-            1, 22, ""c c"", 4, 5,
-            ""f""
-        ] : B,
-        2 : C,
-    },
-}")).
-Eval vm_compute in ("<<<M1887>>>" ++ check (runes_of_ascii "MetaData Packet {
-    u lengthOf `say ""hi""`,
-}
-
-MetaData metadata {
-    crc chars `crlf
-        line`,
-    asx f32a,
-}")).
-Eval vm_compute in ("<<<M1171>>>" ++ check (runes_of_ascii "MetaData leftPad { chars MetaDataX , } packet repeatCount { char[ 255 ] uint8x `" ++ [233]%N ++ runes_of_ascii "` // c
-, } MetaData pack { As Foo , }")).
-Eval vm_compute in ("<<<M1852>>>" ++ check (runes_of_ascii "MetaData zchar {
-    uint8 _x `doc`,
-    float64 metadata `doc`,
-    zchar[42] x_y_z,
-    zchar[3] Logon `{ , }`,
-}")).
-Eval vm_compute in ("<<<M880>>>" ++ check (runes_of_ascii "packet A {
-  match k as n {
-    [""a"", ""bb"", ""c c"", ""d"", ""e"", ""f"", ""g"", ""h"", ""i"", ""j""] : B,
-    2 : C
-  },
-}")).
-Eval vm_compute in ("<<<M158>>>" ++ check (runes_of_ascii "
-MetaData charz { As u128 , Logon options1 `say ""hi""` ,
-    zchar[ 0
-// @lengthOf(
-//
-]Logon ,
     }
+    /// triple
+ 
 ")).
-Eval vm_compute in ("<<<M479>>>" ++ check (runes_of_ascii "packet uint8x
-{ match pack
-    as msg_type	{
-    0123456789 :	float
-}
-,
-} packet //	t
-a1
-    {")).
-Eval vm_compute in ("<<<M862>>>" ++ check (runes_of_ascii "packet A {
-  match k as n {
-    [""a"", ""bb"", 007, ""d"", ""e"", 66, ""g"", ""h""] : B,
-    2 : C
-  },
-}")).
-Eval vm_compute in ("<<<M598>>>" ++ check (runes_of_ascii "
-packet
-    asx {match u128 as lengthOf
-{
-//	t
-// `tick` ""quote"" 'q'
-255 : : x ,
-    } ,	}")).
-Eval vm_compute in ("<<<M555>>>" ++ check (runes_of_ascii "
-asx
-    packet {match u128 as lengthOf
-{
-//	t
-// `tick` ""quote"" 'q'
-255 : x ,
-    } ,	}")).
-Eval vm_compute in ("<<<M857>>>" ++ check (runes_of_ascii "packet A {
-  match k as n {
-    [1, ""bb"", 007, ""d"", 5, ""f"", 7, ""h""] : B
-    2 : C
-  },
-}")).
-Eval vm_compute in ("<<<M1657>>>" ++ check (runes_of_ascii "//
-packet metadata {
-}
+Eval vm_compute in ("<<<M1230>>>" ++ check (runes_of_ascii "options { } options { MetaDataX = char ; } MetaData Pad { i8
+// c
+metadata , string stringy , int8 As `{ , }` , }")).
+Eval vm_compute in ("<<<M941>>>" ++ check (runes_of_ascii "packet A {
+    u16 len @lengthOf(body) `a
 
-MetaData chars {
-    char[42] leftPad `crlf
-        line`,
+b`,
+    u32 crc @calculatedFrom(""CRC32"") `a
+
+b`,
+    string body,
 }")).
-Eval vm_compute in ("<<<M853>>>" ++ check (runes_of_ascii "packet A {
-  match k as n {
-    [1, 22, 007, 4, 5, 66, 7, 8] : B
-    2 : C
-  },
-}")).
-Eval vm_compute in ("<<<M269>>>" ++ check (runes_of_ascii "options
-{ Z9_ ='\x00'  } packet trueish
-{ // " ++ [128512]%N ++ runes_of_ascii " emoji
-u16 calculatedFrom
-, }")).
-Eval vm_compute in ("<<<M822>>>" ++ check (runes_of_ascii "packet A {
-  match k as n {
-    [1, 22, ""c c"", 4, 5] : B
-    2 : C
-  },
-}")).
-Eval vm_compute in ("<<<M791>>>" ++ check (runes_of_ascii "packet A {
-  match k as n {
-    [1, ""bb"", 007] : B,
-    2 : C
-  },
-}")).
-Eval vm_compute in ("<<<M155>>>" ++ check (runes_of_ascii "options
-{calculatedFrom
-= ""abc""
-;float=i16
-} // trailing space ")).
-Eval vm_compute in ("<<<M1683>>>" ++ check (runes_of_ascii "packet msg_type {
-    repeat zchar[007] Logon `two words`,
-}")).
-Eval vm_compute in ("<<<M148>>>" ++ check (runes_of_ascii "options
-{
-    a1	=""packet""// a // b
-; } // @lengthOf(")).
-Eval vm_compute in ("<<<M1211>>>" ++ check (runes_of_ascii "packet body { i32 f32a `{ , }` , // c
-} options { }")).
-Eval vm_compute in ("<<<M1125>>>" ++ check (runes_of_ascii "// top
-MetaData // c0
-u // c1
-{ // c2
-} // c3
+Eval vm_compute in ("<<<M266>>>" ++ check (runes_of_ascii "options { /// triple
+msg_type =4294967296 ;
+chars  = 4294967296 ;}
+options{
+// c
+//
+asx =
+    ""\n"" }
 ")).
-Eval vm_compute in ("<<<M772>>>" ++ check (runes_of_ascii "false int8 uint64 @lengthOf( , @leftPad :")).
-Eval vm_compute in ("<<<M1081>>>" ++ check (runes_of_ascii "options { a = 1; // a
+Eval vm_compute in ("<<<M954>>>" ++ check (runes_of_ascii "packet A {
+    Inner {
+        u8 x `
+x`,
+        Deep {
+            u8 y `
+x`,
+        },
+    },
+}")).
+Eval vm_compute in ("<<<M72>>>" ++ check (runes_of_ascii "
+root
+packet string_ {  }options { i64_ = '\x00'
+    ; Pad =
+int32 ; calculatedFrom = 255
+    }")).
+Eval vm_compute in ("<<<M1825>>>" ++ check (runes_of_ascii "packet A {
+    match k as n {
+        [""a"", 22, ""c c"", 4, ""e""] : B,
+        2 : C,
+    },
+}")).
+Eval vm_compute in ("<<<M246>>>" ++ check (runes_of_ascii "
+MetaData calculatedFrom {
+x
+    float
+,
+//x
+//	t
+T lengthOf
+, }root packet Pad
+{ }
+")).
+Eval vm_compute in ("<<<M1439>>>" ++ check (runes_of_ascii "
+packet
+
+A
+{
+match 
+k
+
+as
+    n {
+[ ""a"" ,
+
+    ""bb"" 
+]
+
+    : B 2: C
+}  ,  }")).
+Eval vm_compute in ("<<<M914>>>" ++ check (runes_of_ascii "packet A { Inner { match k as n { [1,22,007,4,5,66,7,8,9,10,11,12] : B, }, }, }")).
+Eval vm_compute in ("<<<M143>>>" ++ check (runes_of_ascii "options {
+    // `tick` ""quote"" 'q'
+    x_y_z = // " ++ [128512]%N ++ runes_of_ascii " emoji
+zchar[ 10 ]
+}
+")).
+Eval vm_compute in ("<<<M812>>>" ++ check (runes_of_ascii "packet A {
+  match k as n {
+    [1, 22, 007, 4, 5] : B
+    2 : C
+  },
+}")).
+Eval vm_compute in ("<<<M849>>>" ++ check (runes_of_ascii "packet A { Inner { match k as n { [1,22,007,4,5,66,7] : B, }, }, }")).
+Eval vm_compute in ("<<<M776>>>" ++ check (runes_of_ascii "packet A {
+  match k as n {
+    [1, 22] : B,
+    2 : C
+  },
+}")).
+Eval vm_compute in ("<<<M928>>>" ++ check (runes_of_ascii "packet A {
+    B b `
+`,
+    B `
+`,
+    repeat B bs `
+`,
+}")).
+Eval vm_compute in ("<<<M430>>>" ++ check (runes_of_ascii "packet
+    asx { @calculatedFrom(
+""""  ) @tag( 255")).
+Eval vm_compute in ("<<<M984>>>" ++ check (runes_of_ascii "options {
+    a = ""x\
+y"";
+    b = ""x\
+y""
+}")).
+Eval vm_compute in ("<<<M1451>>>" ++ check (runes_of_ascii "
+
+  packet
+T
+
+    {  string pack, 
+} ")).
+Eval vm_compute in ("<<<M1100>>>" ++ check (runes_of_ascii "options { a = 1; // a
  b = 2 // b
  }")).
-Eval vm_compute in ("<<<M105>>>" ++ check (runes_of_ascii "// " ++ [128512]%N ++ runes_of_ascii " emoji
-MetaData crc
-    {  }")).
-Eval vm_compute in ("<<<M988>>>" ++ check (runes_of_ascii "packet A {
- u8 x `d" ++ [160]%N ++ runes_of_ascii "`, // c" ++ [160]%N ++ runes_of_ascii "
+Eval vm_compute in ("<<<M926>>>" ++ check (runes_of_ascii "root packet A {
+    u8 x `a
+b`,
 }")).
-Eval vm_compute in ("<<<M581>>>" ++ check (runes_of_ascii "
-packet
-    asx {match u128")).
-Eval vm_compute in ("<<<M380>>>" ++ check (runes_of_ascii "root packet	Packet { }
+Eval vm_compute in ("<<<M585>>>" ++ check (runes_of_ascii "MetaData u
+    { } MetaData o
+{")).
+Eval vm_compute in ("<<<M939>>>" ++ check (runes_of_ascii "packet A {
+    u8 x `a
+
+b`,
+}")).
+Eval vm_compute in ("<<<M1747>>>" ++ check (runes_of_ascii "  // c" ++ [11]%N ++ runes_of_ascii "
+		packet
+
+A{
+}
 ")).
-Eval vm_compute in ("<<<M1109>>>" ++ check (runes_of_ascii "MetaData tag { // c
+Eval vm_compute in ("<<<M767>>>" ++ check ([65533]%N ++ runes_of_ascii ">" ++ [65533; 3; 65533; 65533; 65533]%N ++ runes_of_ascii "z" ++ [29]%N ++ runes_of_ascii "(" ++ [646; 65533]%N ++ runes_of_ascii "5" ++ [65533]%N ++ runes_of_ascii "4_" ++ [65533; 15; 65533]%N ++ runes_of_ascii "i" ++ [65533; 65533]%N)).
+Eval vm_compute in ("<<<M1000>>>" ++ check (runes_of_ascii "packet A {
+}
+// c" ++ [12288]%N)).
+Eval vm_compute in ("<<<M1093>>>" ++ check (runes_of_ascii "MetaData M {
+}// c")).
+Eval vm_compute in ("<<<M1172>>>" ++ check (runes_of_ascii "packet x {
+// c
 }")).
-Eval vm_compute in ("<<<M278>>>" ++ check (runes_of_ascii "packet Packet { }
+Eval vm_compute in ("<<<M730>>>" ++ check (runes_of_ascii "// a
+// b
 ")).
-Eval vm_compute in ("<<<M1052>>>" ++ check (runes_of_ascii "// c" ++ [65279]%N ++ runes_of_ascii "
-packet A {
-}")).
-Eval vm_compute in ("<<<M1224>>>" ++ check (runes_of_ascii "// c
-packet x { }")).
-Eval vm_compute in ("<<<M742>>>" ++ check (runes_of_ascii "'j=KG=k_)FDOq")).
-Eval vm_compute in ("<<<M1005>>>" ++ check (runes_of_ascii "// c" ++ [8202]%N)).
-Eval vm_compute in ("<<<M734>>>" ++ check ([65279]%N)).
+Eval vm_compute in ("<<<M757>>>" ++ check (runes_of_ascii "char")).
